@@ -367,6 +367,26 @@ Qed.
 (* namers are private: what a generator's hooks see is a function of the context's namers and
    its own only *)
 Theorem namers_private c g :
-  visible_namers c g = match gnamers g with None => sort_strs (namers c) | Some l => union_sorted (namers c) l end.
+  visible_namers c g = match gnamers g with
+                       | None => map (own_mark false) (sort_strs (namers c))
+                       | Some l => map (fun n => own_mark (mem_str n l) n) (union_sorted (namers c) l) end.
 Proof. reflexivity. Qed.
+
+(* on a collision the generator's own naming system wins: a name is bound to the context's system
+   only if the generator did not return a system of that name *)
+Lemma own_mark_inj b1 b2 n1 n2 : own_mark b1 n1 = own_mark b2 n2 -> b1 = b2 /\ n1 = n2.
+Proof.
+  unfold own_mark. intros H. apply (f_equal (@rev N)) in H. rewrite !rev_app_distr in H.
+  destruct b1, b2; simpl in H; try discriminate; injection H as H; apply (f_equal (@rev N)) in H; rewrite !rev_involutive in H; auto.
+Qed.
+Theorem own_namer_wins c g l n b : gnamers g = Some l -> In (own_mark b n) (visible_namers c g) -> b = mem_str n l.
+Proof.
+  intros Hg H. unfold visible_namers in H. rewrite Hg in H. apply in_map_iff in H. destruct H as [x [Hx _]].
+  apply own_mark_inj in Hx. destruct Hx as [Hb Hn]. subst. reflexivity.
+Qed.
+Theorem no_own_namers c g n b : gnamers g = None -> In (own_mark b n) (visible_namers c g) -> b = false.
+Proof.
+  intros Hg H. unfold visible_namers in H. rewrite Hg in H. apply in_map_iff in H. destruct H as [x [Hx _]].
+  apply own_mark_inj in Hx. destruct Hx as [Hb _]. subst. reflexivity.
+Qed.
 End Protocol.
